@@ -136,6 +136,18 @@ fn codec_body(case: &ValCase, ctx: &mut CaseCtx) -> PropResult {
         check("json-slice", no_panic("from_slice", || serde_json::from_slice::<Variant>(&bytes))?.map_err(|e| e.to_string()))?;
         check("json-reader", no_panic("from_reader", || serde_json::from_reader::<_, Variant>(bytes.as_slice()))?.map_err(|e| format!("{e} in {text}")))?;
         let value = serde_json::to_value(&variant).map_err(|e| Fail::new(format!("serde:json-ser:{ty}"), e.to_string()))?;
+        // wire contract with rbx_dom_lua (allValues.json shapes): byte strings are one standard base64 string
+        if let GVal::BinaryString(b) | GVal::SharedString(b) = &case.val {
+            let want = serde_json::json!({ ty.as_str(): own_base64(b) });
+            ensure!(
+                value == want,
+                format!("serde:json-wire:{ty}"),
+                "{} bytes are written to JSON as {}, the wire form is {}",
+                b.len(),
+                value.to_string().chars().take(200).collect::<String>(),
+                want.to_string().chars().take(200).collect::<String>()
+            );
+        }
         check("json-value", no_panic("from_value", || serde_json::from_value::<Variant>(value.clone()))?.map_err(|e| format!("{e} in {value}")))?;
         ctx.add_evals(4);
     }
@@ -147,6 +159,41 @@ fn codec_body(case: &ValCase, ctx: &mut CaseCtx) -> PropResult {
     check("msgpack-compact", no_panic("rmp from_slice", || rmp_serde::from_slice::<Variant>(&m))?.map_err(|e| e.to_string()))?;
     ctx.add_evals(2);
     Ok(())
+}
+
+/// RFC 4648 base64 with padding, written here so the expectation does not come from the crate under test.
+fn own_base64(bytes: &[u8]) -> String {
+    const A: &[u8; 64] = b"ABCDEFGHIJKLMNOPQRSTUVWXYZabcdefghijklmnopqrstuvwxyz0123456789+/";
+    let mut out = String::with_capacity(bytes.len().div_ceil(3) * 4);
+    for c in bytes.chunks(3) {
+        let n = (c[0] as u32) << 16 | (*c.get(1).unwrap_or(&0) as u32) << 8 | *c.get(2).unwrap_or(&0) as u32;
+        out.push(A[(n >> 18) as usize & 63] as char);
+        out.push(A[(n >> 12) as usize & 63] as char);
+        out.push(if c.len() > 1 { A[(n >> 6) as usize & 63] as char } else { '=' });
+        out.push(if c.len() > 2 { A[n as usize & 63] as char } else { '=' });
+    }
+    out
+}
+
+#[derive(Clone, Debug, Serialize, Deserialize)]
+pub struct LongVal {
+    pub kind: String,
+    pub n: usize,
+}
+
+fn long_val_body(c: &LongVal, ctx: &mut CaseCtx) -> PropResult {
+    let bytes = |n: usize| (0..n).map(|i| (i * 37 % 253) as u8).collect::<Vec<u8>>();
+    let val = match c.kind.as_str() {
+        "BinaryString" => GVal::BinaryString(bytes(c.n)),
+        "SharedString" => GVal::SharedString(bytes(c.n)),
+        "Tags" => GVal::Tags((0..c.n / 8).map(|i| format!("tag{i:05}")).collect()),
+        "Attributes" => GVal::Attributes(vec![("blob".into(), GVal::BinaryString(bytes(c.n))), ("z".into(), GVal::Bool(true))]),
+        "NumberSequence" => super::c14::long_value("NumberSequence", c.n / 12),
+        _ => super::c14::long_value("String", c.n),
+    };
+    ctx.nontrivial();
+    codec_body(&ValCase { val: val.clone(), finite: true }, ctx)?;
+    codec_body(&ValCase { val, finite: false }, ctx)
 }
 
 fn type_label(v: &GVal) -> &'static str {
@@ -412,6 +459,23 @@ pub fn run(ctx: &Ctx) -> PropertyReport {
             r.floor(l, cases / 500);
         }
         rep.push(r);
+    }
+    if sub.runs("long-values") {
+        // lengths around every block size a codec could plausibly chunk at
+        let mut lens: Vec<usize> = Vec::new();
+        for centre in [1024usize, 2048, 3072, 4096, 8192, 16384, 32768, 65536, 131072] {
+            for d in 0..7 {
+                lens.push(centre + d - 3);
+            }
+        }
+        lens.extend([255, 256, 257, 511, 512, 513, 1000, 1500, 5000, 100_001, 1_000_003]);
+        let mut cases = Vec::new();
+        for kind in ["BinaryString", "SharedString", "String", "Tags", "Attributes", "NumberSequence"] {
+            for n in &lens {
+                cases.push(LongVal { kind: kind.to_string(), n: *n });
+            }
+        }
+        rep.push(ctx.run_list("long-values", cases, true, long_val_body));
     }
     if sub.runs("text") {
         let cases = ctx.cfg.cases(200_000, 3_000_000);
